@@ -38,7 +38,9 @@ vcont == Cont
 \* entry == [kind, c, before, after, cls, sto]   (sto: how a patch entry is stored in its archive --
 \*          raw | zsingle (single unit, compressed) | zsect (sector table + compressed sectors); driver only)
 \*   kind = "none" | "plain" (content id c) | "patch" (turns content `before` into `after`)
-\*   cls  = "" | "copy" | "bsd0" | "bsd0neg" | "corrupt" | "garbage"
+\*   cls  = "" | "copy" | "bsd0" | "bsd0neg" (well-formed) | "corrupt" (payload fails its digest) | "garbage" (not a PTCH
+\*          file) | "zerocopy" | "zerobsd0" (md5_after all zero and a damaged payload: a zero digest is just a digest that
+\*          no data matches, so these never apply)
 NoEntry          == [kind |-> "none",  c |-> "", before |-> "", after |-> "", cls |-> "", sto |-> ""]
 Plain(cid)       == [kind |-> "plain", c |-> cid, before |-> "", after |-> "", cls |-> "", sto |-> ""]
 PatchS(b, a, cl, st) == [kind |-> "patch", c |-> "", before |-> b, after |-> a, cls |-> cl, sto |-> st]
